@@ -152,6 +152,7 @@ pub fn account(agg: &mut Agg, job: &Job, sub: u64, plan: &Plan, image: &[u8], re
         agg.inc("reader:calls", rs.calls);
         agg.inc("reader:short-reads", rs.short);
         agg.inc("reader:eintr", rs.eintr);
+        agg.inc("reader:vectored-calls", rs.vectored_calls);
         agg.inc("reader:hard-errors", rs.errors);
         agg.inc("reader:zero-at-eof", rs.zero_eof);
         agg.inc("reader:bytes-delivered", rs.delivered);
